@@ -14,6 +14,9 @@ AREA_PROPS={
  'G':['C05','C06'],
  'H':['C15','C16','C17'],
 }
+REDUCED={'A':['C01','C09','C11'],'B':['C02','C07','C12'],'C':['C03','C04','C18'],'D':['C07','C08','C19'],'E':['C07','C12','C19'],'F':['C05','C13'],'G':['C06'],'H':['C15','C16','C17']}
+if os.environ.get('BENIGN_REDUCED'):
+    AREA_PROPS=REDUCED
 def main():
     ids=sys.argv[1:] or sorted(os.path.basename(p) for p in glob.glob(ROOT+'/*') if os.path.isdir(p))
     res={}
@@ -32,7 +35,7 @@ def main():
             notes=[l for l in r.stdout.splitlines() if 'denotes renamed' in l]
             out[p]={'exit':r.returncode,'violations':[x[:260] for x in v[:4]],'n':len(v)}
         bad=[p for p in out if out[p]['exit']!=0]
-        res[i]={'kind':meta.get('kind'),'summary':meta['summary'][:160],'alarms':bad,'detail':{p:out[p] for p in bad}}
+        res[i]={'props':props,'kind':meta.get('kind'),'summary':meta['summary'][:160],'alarms':bad,'detail':{p:out[p] for p in bad}}
         print(i,meta.get('kind'),'ALARM '+','.join(bad) if bad else 'quiet',flush=True)
         subprocess.run(['git','-C',REPO,'checkout','-q','--','.']);subprocess.run(['git','-C',REPO,'clean','-fdq'])
     o=os.environ.get('BENIGN_OUT','/verif/out/benign_results.json')
